@@ -431,6 +431,7 @@ type waiter struct {
 	val   Value
 	ok    bool
 	vc    VC
+	g     *G
 }
 
 type selCase struct {
@@ -457,7 +458,7 @@ func (e *Exec) newChan(cap int) *Chan {
 
 // selectOp performs a (possibly single-case) select with rendezvous semantics for unbuffered channels.
 func (e *Exec) selectOp(cases []*selCase, blocking bool) (int, Value, bool) {
-	w := &waiter{fired: -1}
+	w := &waiter{fired: -1, g: e.sch.cur}
 	for i, sc := range cases {
 		sc.w, sc.idx = w, i
 		if sc.c == nil {
@@ -548,6 +549,10 @@ func (e *Exec) selectOp(cases []*selCase, blocking bool) (int, Value, bool) {
 		}
 		p := partner(c.recvq)
 		p.w.fired, p.w.val, p.w.ok, p.w.vc = p.idx, sc.v, true, evc
+		// rendezvous: the receive is synchronised before the completion of the send as well
+		if p.w.g != nil {
+			e.acquire(p.w.g.vc)
+		}
 		return rs[k], nil, false
 	}
 	e.slog("recv ch%d", c.id)
@@ -562,7 +567,13 @@ func (e *Exec) selectOp(cases []*selCase, blocking bool) (int, Value, bool) {
 	}
 	if p := partner(c.sendq); c.cap == 0 && p != nil {
 		p.w.fired = p.idx
-		// sender's clock was not published while parked: conservative join of its goroutine clock
+		// rendezvous with a parked sender: its clock has not moved since it parked
+		if p.w.g != nil {
+			e.acquire(p.w.g.vc)
+		}
+		var rvc VC
+		e.release(&rvc)
+		p.w.vc = rvc
 		return rs[k], p.v, true
 	}
 	e.acquire(c.cvc)
